@@ -707,7 +707,7 @@ func (c *Ctx) checkRawFanout(r *Report, ro *Roles) {
 
 func (c *Ctx) checkHandleRegistry(r *Report) {
 	gl := c.logFunc("GetLogger")
-	g := c.logGlobal("loggerMap")
+	g := c.names().HandleMap
 	if gl == nil || g == nil {
 		r.Undecided("C12.handle:GetLogger", "", "GetLogger / handle map not found")
 		return
